@@ -1,4 +1,4 @@
-(* P/Limiter: executable model of anyio._backends._asyncio.CapacityLimiter (lines 2050-2169 of /repo HEAD).
+(* P/Limiter: executable model of anyio._backends._asyncio.CapacityLimiter (class CapacityLimiter of /repo HEAD).
    Actions are the atomic segments of acquire_on_behalf_of (acquire() = on behalf of the calling task),
    acquire_on_behalf_of_nowait, release_on_behalf_of, the total_tokens setter, plus the kernel actions Resume
    and Cancel (asyncio Task.cancel() on a blocked task).  Definitions only: proofs are in LimiterProofs.v /
@@ -11,7 +11,10 @@
      `_wait_queue` is an OrderedDict borrower -> asyncio.Event: list of (borrower, event id) in insertion order;
      `d[k] = v` on an existing key replaces the value in place (queue_set), `pop(k, None)` is queue_pop.
    * acquire_on_behalf_of(b): checkpoint_if_cancelled (no suspension: the caller is not inside a cancelled
-     AnyIO scope, see C08); nowait part; on WouldBlock enqueue a fresh Event and suspend in Event.wait()
+     AnyIO scope, see C08); nowait part (b already a borrower -> RuntimeError; free token and empty queue ->
+     granted); on WouldBlock: b already has a slot in the wait queue -> RuntimeError, nothing changes (HEAD,
+     after the F16 fix 44feca9; `enq_pinned` keeps the pre-fix behaviour - the second waiter overwrites the
+     first one's event - for the refutation witness); else enqueue a fresh Event and suspend in Event.wait()
      (phase Waiting b e; `fcanc t` = the future inside Event.wait() was cancelled); otherwise the token is
      taken and the task suspends in cancel_shielded_checkpoint (phase FastYield b).
      Resumption of a waiter: normal -> return.  Exception -> `_wait_queue.pop(b, None)`; if the event is set
@@ -24,13 +27,13 @@
    * Ghost state: held (borrowers whose acquire returned and that were not released since), resv (borrowers
      that own a token while their acquire call has not returned: FastYield, or event set), arrivals (log of
      the wait queue), tainted.
-   * `tainted` records that the history left the domain the theorems speak about; the model stays faithful
-     (it is compared with the implementation on such histories too), only the invariant is conditional:
-       O1  acquire_on_behalf_of(b) enqueues while another acquire for the same b is still queued
-           (DESIGN observation O1: the second call overwrites the first call's queue entry);
-       O2  release_on_behalf_of(b) while the acquire call that obtained b's token has not returned yet.
-     (Only the pinned variant `fy_cancel_pinned` additionally taints: D1, a native cancellation hits the shielded
-      yield of acquire_on_behalf_of(b) with b <> current task and the wrong borrower is released.) *)
+   * `tainted` records that the history left the domain the conditional theorems speak about; the model stays
+     faithful (it is compared with the implementation on such histories too).  At HEAD exactly ONE thing taints:
+       O2  release_on_behalf_of(b) while the acquire call that obtained b's token has not returned yet
+           (its task still sits in the shielded yield, or was woken and has not run).
+     Two concurrent acquire_on_behalf_of for the same borrower (former observation O1, finding F16) are NOT
+     outside the domain any more: the second one is rejected and the theorems cover those histories.
+     (The pinned variants `enq_pinned` / `fy_cancel_pinned` taint where they corrupt the bookkeeping.) *)
 From AV Require Import Base C10Defs.
 
 Definition bid := nat.
@@ -177,17 +180,28 @@ Definition fy_cancel_pinned (s1 : st) (t : tid) (b : bid) : st * res :=
   if mem t (borrowers s1) then (taint (give_back s1 t) (negb (Nat.eqb b t)), RCancelled)
   else (taint s1 true, RRuntime).
 
+(* the `except WouldBlock:` branch of acquire_on_behalf_of up to the suspension (lines 2172-2185).
+   HEAD: a borrower that already has a slot in the wait queue is refused *)
+Definition enqueue (s : st) (t : tid) (b : bid) (tn : bool) : st :=
+  let e := nev s in
+  mk (total s) (borrowers s) (queue_set (queue s) b e) (upd (evset s) e false) (S e)
+     (upd (phase_of s) t (Waiting b e)) (upd (fcanc s) t false) (mustc s)
+     (held s) (resv s) (arrivals s ++ [(b, e)]) tn.
+
+Definition enq_head (s : st) (t : tid) (b : bid) : st * res :=
+  if mem b (keys (queue s)) then (s, RRuntime) else (enqueue s t b (tainted s), RBlocked).
+
+(* before the fix: `self._wait_queue[borrower] = event` unconditionally (overwrites an existing slot) *)
+Definition enq_pinned (s : st) (t : tid) (b : bid) : st * res :=
+  (enqueue s t b (tainted s || mem b (keys (queue s))), RBlocked).
+
 Definition step_gen (setter : st -> option nat -> st) (fyc : st -> tid -> bid -> st * res)
-                    (s : st) (o : op) : st * res :=
+                    (enq : st -> tid -> bid -> st * res) (s : st) (o : op) : st * res :=
   match o with
   | AcqOn t b =>
       if negb (is_idle (phase_of s t)) then (s, RRejected) else
       if mem b (borrowers s) then (s, RRuntime) else
-      if busy s then
-        let e := nev s in
-        (mk (total s) (borrowers s) (queue_set (queue s) b e) (upd (evset s) e false) (S e)
-            (upd (phase_of s) t (Waiting b e)) (upd (fcanc s) t false) (mustc s)
-            (held s) (resv s) (arrivals s ++ [(b, e)]) (tainted s || mem b (keys (queue s))), RBlocked)
+      if busy s then enq s t b
       else
         (mk (total s) (b :: borrowers s) (queue s) (evset s) (nev s)
             (upd (phase_of s) t (FastYield b)) (fcanc s) (mustc s)
@@ -241,9 +255,11 @@ Definition step_gen (setter : st -> option nat -> st) (fyc : st -> tid -> bid ->
       end
   end.
 
-Definition step := step_gen set_total fy_cancel.
-Definition step_pinned := step_gen set_total_pinned fy_cancel.       (* before the F1 fix (bce1e1d) *)
-Definition step_d1_pinned := step_gen set_total fy_cancel_pinned.    (* before the D1 fix (cf4519f) *)
+(* each pinned variant differs from HEAD in exactly one handler *)
+Definition step := step_gen set_total fy_cancel enq_head.
+Definition step_pinned := step_gen set_total_pinned fy_cancel enq_head.       (* before the F1 fix (bce1e1d) *)
+Definition step_d1_pinned := step_gen set_total fy_cancel_pinned enq_head.    (* before the D1 fix (cf4519f) *)
+Definition step_f16_pinned := step_gen set_total fy_cancel enq_pinned.        (* before the F16 fix (44feca9) *)
 
 (* ---- observable output of a step (what the harness compares) ---- *)
 Definition res_code (r : res) : Z :=
